@@ -84,7 +84,7 @@ def template_instances(draw, allow, max_inst=6):
 
 SIZE_KEYS = {'do_all': 1, 'do_all_exceptions': 1, 'n_per_length': 1,
              'max_sampled_attempts': 0, 'max_punc_in_group': 1,
-             'max_strings_in_group': 1}
+             'max_strings_in_group': 1, 'use_sampling': 0}
 
 
 def size_strategy():
@@ -99,8 +99,11 @@ def size_strategy():
         'max_strings_in_group': st.integers(1, 5),
     })
     both = st.tuples(sampling, groups).map(lambda t: dict(t[0], **t[1]))
+    # use_sampling=False only changes the default for do_all: with explicit
+    # small limits the extraction still samples
+    unsampled = sampling.map(lambda d: dict(d, use_sampling=False))
     return st.one_of(st.none(), st.none(), st.none(), st.just(0),
-                     sampling, groups.filter(bool), both)
+                     sampling, groups.filter(bool), both, unsampled)
 
 
 def valid_size(sz):
@@ -109,6 +112,10 @@ def valid_size(sz):
     if not isinstance(sz, dict) or not sz:
         return False
     for (k, v) in sz.items():
+        if k == 'use_sampling':
+            if v is not False:
+                return False
+            continue
         if k not in SIZE_KEYS or not isinstance(v, int) or isinstance(
                 v, bool) or v < SIZE_KEYS[k]:
             return False
@@ -146,7 +153,7 @@ def examples_strategy(draw, tier='quick', allow=lambda c: True,
         # alphanumeric run (letters then digits ...), so that the number of
         # groups in the expression approaches and passes the limit of 99
         k = draw(st.sampled_from([12, 20, 33, 34, 40, 49, 50, 60]))
-        sep = draw(st.sampled_from(['-', '.', ' ', ':', '/']))
+        sep = draw(st.sampled_from(['-', '.', ' ', ':', '/', '\n', ' \n']))
         shape = draw(st.sampled_from(['a1', '1a', 'Aa1', 'a1a', 'aA']))
         pools = {'a': 'abcdxyz', 'A': 'ABCDXYZ', '1': '0123456789'}
         for _ in range(draw(st.integers(2, 3))):
